@@ -166,151 +166,207 @@ def stickyDelete (tbl : List SealRec) (inst : Inst) (who : Ident) (hdr : Option 
   | .ok (some sid) => ({ inst with sessions := inst.sessions.filter fun s => decide (s.1 ≠ sid) }, 204)
   | _ => (inst, 200)
 
-/-! ## the interpreter -/
+/-! ## typed commands (what a script line means) and their effect on the world -/
 
-def stepInst (w : World) (name : String) (ws : List String) : World × String :=
+/-- Values the environment reports for an `/init` that minted tokens. -/
+structure InitEnv where
+  callId : Bytes
+  streamId : Bytes
+  schema : Bytes
+  created : Int
+  curTok : Bytes
+  callTok : Bytes
+  deriving Repr
+
+inductive StickyOp | suse | sclose | sdel | sopen
+  deriving DecidableEq, Repr
+
+inductive Cmd
+  /-- create / replace a server instance -/
+  | inst (name : String) (i : Inst)
+  /-- a pure question about the byte-level functions (answer computed while parsing) -/
+  | query (answer : String)
+  /-- POST /{method}/init -/
+  | init (iname : String) (who : Ident) (method : Bytes) (limit : Nat) (sess : Option Bytes) (now : Int)
+      (env : Option InitEnv)
+  /-- POST /{method}/exchange; `env` = (text of the cursor the server minted, its CreatedAt) -/
+  | cont (iname : String) (req : Req) (env : Option (Bytes × Int))
+  /-- a seal event reported by the environment (hook-minted or re-sealed token) -/
+  | seal (iname : String) (aad : Bytes) (session : Bool) (tok : Bytes) (pt : Plain)
+  /-- the unary sticky family and DELETE /__session__; `env` = (session id drawn, token text minted) -/
+  | sticky (op : StickyOp) (iname : String) (who : Ident) (sess : Option Bytes) (accept : Bool)
+      (env : Option (Bytes × Bytes))
+  deriving Repr
+
+def applyInit (w : World) (iname : String) (who : Ident) (method : Bytes) (limit : Nat)
+    (sess : Option Bytes) (now : Int) (env : Option InitEnv) : World × String :=
+  match w.inst? iname with
+  | none => (w, "bad-op")
+  | some inst =>
+    let e : InitEnv := env.getD ⟨[], [], [], 0, [], []⟩
+    let o := initStream w.sealed inst who method limit sess e.callId e.streamId e.schema e.created
+    let line := s!"{showStatus o.status o.rpcErr} {match o.err with | none => (if o.mint.isSome then "ok" else "finished") | some er => showDecision (some er)}"
+    match o.mint with
+    | none => (w, line)
+    | some (cd, kd) =>
+      match env with
+      | none => (w, "bad-op")      -- the model mints but the environment reported no tokens
+      | some e =>
+        if !callIdFresh w.sealed (normKey inst.key) cd.callId then (w, "err:callid-reuse") else
+        match recordSeal w.sealed inst.key (cursorAad who) false e.curTok (.cursor cd) with
+        | none => (w, "err:seal-cursor")
+        | some t1 =>
+          match recordSeal t1 inst.key (callAad who) false e.callTok (.call kd) with
+          | none => (w, "err:seal-call")
+          | some t2 =>
+            -- packCallToken warms the cache
+            let c := cachePut inst.cacheMax inst.ttl inst.cache now (cacheKey cd.callId who)
+              ⟨kd.schema, kd.streamId⟩ (tokenExpiry inst.ttl kd.created)
+            (({ w with sealed := t2 }).setInst iname { inst with cache := c }, line)
+
+def applyCont (w : World) (iname : String) (req : Req) (env : Option (Bytes × Int)) : World × String :=
+  match w.inst? iname with
+  | none => (w, "bad-op")
+  | some inst =>
+    let r := exchange w.sealed inst req
+    let w1 := w.setInst iname r.1
+    match r.2.next, env with
+    | some nd, some (newTok, ncreated) =>
+      match recordSeal w.sealed inst.key (cursorAad req.who) false newTok (.cursor { nd with created := ncreated }) with
+      | some t => ({ w1 with sealed := t }, showOutcome r.2)
+      | none => (w1, "err:seal-next")
+    | _, _ => (w1, showOutcome r.2)     -- nothing minted (if only one side thinks so, the outputs differ)
+
+def applySeal (w : World) (iname : String) (aad : Bytes) (session : Bool) (tok : Bytes) (pt : Plain) :
+    World × String :=
+  match w.inst? iname with
+  | none => (w, "bad-op")
+  | some inst =>
+    match recordSeal w.sealed inst.key aad session tok pt with
+    | some t => ({ w with sealed := t }, "ok")
+    | none => (w, "err:seal")
+
+def applySticky (w : World) (op : StickyOp) (iname : String) (who : Ident) (sess : Option Bytes)
+    (accept : Bool) (env : Option (Bytes × Bytes)) : World × String :=
+  match w.inst? iname with
+  | none => (w, "bad-op")
+  | some inst =>
+    match op with
+    | .suse => (w, showU (unaryWho w.sealed inst who sess))
+    | .sclose =>
+      let r := unaryClose w.sealed inst who sess
+      (w.setInst iname r.1, showU r.2)
+    | .sdel =>
+      let r := stickyDelete w.sealed inst who sess
+      (w.setInst iname r.1, s!"{r.2}")
+    | .sopen =>
+      let sid := (env.map (·.1)).getD []
+      let r := unaryOpen w.sealed inst who sess accept sid
+      match r.2, env with
+      | .opened, some (_, tok) =>
+        match recordSeal w.sealed inst.key (cursorAad who) true tok (.session ⟨inst.serverId, sid⟩) with
+        | some t => (({ w with sealed := t }).setInst iname r.1, showU r.2)
+        | none => (w, "err:seal-session")
+      | .opened, none => (w, showU r.2)      -- the server minted nothing: the outputs will differ
+      | _, _ => (w.setInst iname r.1, showU r.2)
+
+def apply (w : World) : Cmd → World × String
+  | .inst name i => (w.setInst name i, "ok normkey=" ++ hexOfBytes (normKey i.key))
+  | .query a => (w, a)
+  | .init iname who method limit sess now env => applyInit w iname who method limit sess now env
+  | .cont iname req env => applyCont w iname req env
+  | .seal iname aad session tok pt => applySeal w iname aad session tok pt
+  | .sticky op iname who sess accept env => applySticky w op iname who sess accept env
+
+/-! ## parsing -/
+
+def parseInst (name : String) (ws : List String) : Option Cmd :=
   match fBytes ws "key", fInt ws "ttl", fInt ws "cache", fBool ws "sticky", fBytes ws "sid",
         fBool ws "rehydrate", fBool ws "hook", (field ws "methods").bind parseMethods with
   | some key, some ttl, some cache, some sticky, some sid, some rh, some hook, some ms =>
-    let i : Inst := ⟨key, ttl, cache, [], sticky, sid, [], rh, hook, ms⟩
-    (w.setInst name i, "ok normkey=" ++ hexOfBytes (normKey key))
-  | _, _, _, _, _, _, _, _ => (w, "bad-op")
+    some (.inst name ⟨key, ttl, cache, [], sticky, sid, [], rh, hook, ms⟩)
+  | _, _, _, _, _, _, _, _ => none
 
-def stepInit (w : World) (iname ident method : String) (ws : List String) : World × String :=
-  match w.inst? iname, parseIdent ident with
-  | some inst, some who =>
-    match fNat ws "limit", fOptBytes ws "sess", fInt ws "now" with
-    | some limit, some sess, some now =>
-      let callId := (fBytes ws "callid").getD []
-      let streamId := (fBytes ws "streamid").getD []
-      let schema := (fBytes ws "schema").getD []
-      let created := (fInt ws "created").getD 0
-      let o := initStream w.sealed inst who (bytesOfString method) limit sess callId streamId schema created
-      let line := s!"{showStatus o.status o.rpcErr} {match o.err with | none => (if o.mint.isSome then "ok" else "finished") | some e => showDecision (some e)}"
-      match o.mint with
-      | none => (w, line)
-      | some (cd, kd) =>
-        -- the environment must report the two tokens the server minted
-        match fBytes ws "cur", fBytes ws "call", fBytes ws "callid", fInt ws "created" with
-        | some curTok, some callTok, some _, some _ =>
-          if !callIdFresh w.sealed (normKey inst.key) cd.callId then (w, "err:callid-reuse") else
-          match recordSeal w.sealed inst.key (cursorAad who) false curTok (.cursor cd) with
-          | none => (w, "err:seal-cursor")
-          | some t1 =>
-            match recordSeal t1 inst.key (callAad who) false callTok (.call kd) with
-            | none => (w, "err:seal-call")
-            | some t2 =>
-              -- packCallToken warms the cache
-              let c := cachePut inst.cacheMax inst.ttl inst.cache now (cacheKey cd.callId who)
-                ⟨kd.schema, kd.streamId⟩ (tokenExpiry inst.ttl kd.created)
-              (({ w with sealed := t2 }).setInst iname { inst with cache := c }, line)
-        | _, _, _, _ => (w, "bad-op")
-    | _, _, _ => (w, "bad-op")
-  | _, _ => (w, "bad-op")
+def parseInitEnv (ws : List String) : Option InitEnv :=
+  match fBytes ws "callid", fBytes ws "streamid", fBytes ws "schema", fInt ws "created", fBytes ws "cur", fBytes ws "call" with
+  | some a, some b, some c, some d, some e, some f => some ⟨a, b, c, d, e, f⟩
+  | _, _, _, _, _, _ => none
 
-def stepCont (w : World) (iname ident method : String) (ws : List String) : World × String :=
-  match w.inst? iname, parseIdent ident with
-  | some inst, some who =>
-    match fOptBytes ws "cur", fOptBytes ws "call", fBool ws "cancel", fOptBytes ws "sess", fInt ws "now" with
-    | some cur, some call, some cancel, some sess, some now =>
-      let req : Req := ⟨who, bytesOfString method, cur, call, cancel, sess, now⟩
-      let (inst', o) := exchange w.sealed inst req
-      let w1 := w.setInst iname inst'
-      match o.next with
-      | none => (w1, showOutcome o)
-      | some nd =>
-        match fBytes ws "new", fInt ws "ncreated" with
-        | some newTok, some ncreated =>
-          match recordSeal w1.sealed inst.key (cursorAad who) false newTok (.cursor { nd with created := ncreated }) with
-          | some t => ({ w1 with sealed := t }, showOutcome o)
-          | none => (w1, "err:seal-next")
-        | _, _ => (w1, showOutcome o)     -- the server minted nothing: the outputs will differ
-    | _, _, _, _, _ => (w, "bad-op")
-  | _, _ => (w, "bad-op")
+def parseInit (iname ident method : String) (ws : List String) : Option Cmd :=
+  match parseIdent ident, fNat ws "limit", fOptBytes ws "sess", fInt ws "now" with
+  | some who, some limit, some sess, some now =>
+    some (.init iname who (bytesOfString method) limit sess now (parseInitEnv ws))
+  | _, _, _, _ => none
 
-def stepSeal (w : World) (kind iname ident : String) (ws : List String) : World × String :=
-  match w.inst? iname, parseIdent ident, fBytes ws "tok" with
-  | some inst, some who, some tok =>
+def parseCont (iname ident method : String) (ws : List String) : Option Cmd :=
+  match parseIdent ident, fOptBytes ws "cur", fOptBytes ws "call", fBool ws "cancel", fOptBytes ws "sess", fInt ws "now" with
+  | some who, some cur, some call, some cancel, some sess, some now =>
+    let env := match fBytes ws "new", fInt ws "ncreated" with
+      | some t, some c => some (t, c)
+      | _, _ => none
+    some (.cont iname ⟨who, bytesOfString method, cur, call, cancel, sess, now⟩ env)
+  | _, _, _, _, _, _ => none
+
+def parseSeal (kind iname ident : String) (ws : List String) : Option Cmd :=
+  match parseIdent ident, fBytes ws "tok" with
+  | some who, some tok =>
     match kind with
     | "cursor" =>
       match fInt ws "created", fBytes ws "callid", fBytes ws "method", (field ws "skind").bind parseKind,
             fNat ws "count", fNat ws "limit" with
       | some cr, some cid, some m, some k, some cnt, some lim =>
-        match recordSeal w.sealed inst.key (cursorAad who) false tok (.cursor ⟨cr, cid, m, k, cnt, lim⟩) with
-        | some t => ({ w with sealed := t }, "ok")
-        | none => (w, "err:seal")
-      | _, _, _, _, _, _ => (w, "bad-op")
+        some (.seal iname (cursorAad who) false tok (.cursor ⟨cr, cid, m, k, cnt, lim⟩))
+      | _, _, _, _, _, _ => none
     | "call" =>
       match fInt ws "created", fBytes ws "callid", fBytes ws "schema", fBytes ws "streamid" with
-      | some cr, some cid, some sc, some sid =>
-        match recordSeal w.sealed inst.key (callAad who) false tok (.call ⟨cr, cid, sc, sid⟩) with
-        | some t => ({ w with sealed := t }, "ok")
-        | none => (w, "err:seal")
-      | _, _, _, _ => (w, "bad-op")
+      | some cr, some cid, some sc, some sid => some (.seal iname (callAad who) false tok (.call ⟨cr, cid, sc, sid⟩))
+      | _, _, _, _ => none
     | "session" =>
       match fBytes ws "serverid", fBytes ws "sid" with
-      | some srv, some sid =>
-        match recordSeal w.sealed inst.key (cursorAad who) true tok (.session ⟨srv, sid⟩) with
-        | some t => ({ w with sealed := t }, "ok")
-        | none => (w, "err:seal")
-      | _, _ => (w, "bad-op")
-    | _ => (w, "bad-op")
-  | _, _, _ => (w, "bad-op")
+      | some srv, some sid => some (.seal iname (cursorAad who) true tok (.session ⟨srv, sid⟩))
+      | _, _ => none
+    | _ => none
+  | _, _ => none
 
-def stepSticky (w : World) (op iname ident : String) (ws : List String) : World × String :=
-  match w.inst? iname, parseIdent ident, fOptBytes ws "sess" with
-  | some inst, some who, some sess =>
+def parseSticky (op : StickyOp) (iname ident : String) (ws : List String) : Option Cmd :=
+  match parseIdent ident, fOptBytes ws "sess" with
+  | some who, some sess =>
+    let env := match fBytes ws "sid", fBytes ws "tok" with
+      | some a, some b => some (a, b)
+      | _, _ => none
     match op with
-    | "suse" => (w, showU (unaryWho w.sealed inst who sess))
-    | "sclose" =>
-      let (i', o) := unaryClose w.sealed inst who sess
-      (w.setInst iname i', showU o)
-    | "sdel" =>
-      let (i', st) := stickyDelete w.sealed inst who sess
-      (w.setInst iname i', s!"{st}")
-    | "sopen" =>
-      match fBool ws "accept" with
-      | none => (w, "bad-op")
-      | some accept =>
-        let sid := (fBytes ws "sid").getD []
-        let (i', o) := unaryOpen w.sealed inst who sess accept sid
-        match o with
-        | .opened =>
-          match fBytes ws "tok", fBytes ws "sid" with
-          | some tok, some _ =>
-            match recordSeal w.sealed inst.key (cursorAad who) true tok (.session ⟨inst.serverId, sid⟩) with
-            | some t => (({ w with sealed := t }).setInst iname i', showU o)
-            | none => (w, "err:seal-session")
-          | _, _ => (w, showU o)      -- the server minted nothing: the outputs will differ
-        | _ => (w.setInst iname i', showU o)
-    | _ => (w, "bad-op")
-  | _, _, _ => (w, "bad-op")
+    | .sopen => (fBool ws "accept").map fun acc => .sticky op iname who sess acc env
+    | _ => some (.sticky op iname who sess false none)
+  | _, _ => none
 
-def step (w : World) (ws : List String) : World × String :=
+def parse (ws : List String) : Option Cmd :=
   match ws with
-  | "inst" :: name :: rest => stepInst w name rest
+  | "inst" :: name :: rest => parseInst name rest
   | ["aad", kind, ident] =>
     match parseIdent ident with
     | some who =>
-      if kind == "cursor" then (w, hexArg (cursorAad who))
-      else if kind == "call" then (w, hexArg (callAad who)) else (w, "bad-op")
-    | none => (w, "bad-op")
-  | ["ikey", ident] =>
-    match parseIdent ident with
-    | some who => (w, hexArg (identKey who) ++ " " ++ hexArg (identKey who))
-    | none => (w, "bad-op")
-  | ["norm", k] =>
-    match parseHexArg k with
-    | some key => (w, hexArg (normKey key))
-    | none => (w, "bad-op")
-  | ["advance", n] => if n.toNat?.isSome then (w, "ok") else (w, "bad-op")
-  | "init" :: iname :: ident :: method :: rest => stepInit w iname ident method rest
-  | "cont" :: iname :: ident :: method :: rest => stepCont w iname ident method rest
-  | "seal" :: kind :: iname :: ident :: rest => stepSeal w kind iname ident rest
-  | "sopen" :: iname :: ident :: rest => stepSticky w "sopen" iname ident rest
-  | "suse" :: iname :: ident :: rest => stepSticky w "suse" iname ident rest
-  | "sclose" :: iname :: ident :: rest => stepSticky w "sclose" iname ident rest
-  | "sdel" :: iname :: ident :: rest => stepSticky w "sdel" iname ident rest
-  | _ => (w, "bad-op")
+      if kind == "cursor" then some (.query (hexArg (cursorAad who)))
+      else if kind == "call" then some (.query (hexArg (callAad who))) else none
+    | none => none
+  | ["ikey", ident] => (parseIdent ident).map fun who => .query (hexArg (identKey who) ++ " " ++ hexArg (identKey who))
+  | ["norm", k] => (parseHexArg k).map fun key => .query (hexArg (normKey key))
+  | ["advance", n] => if n.toNat?.isSome then some (.query "ok") else none
+  | "init" :: iname :: ident :: method :: rest => parseInit iname ident method rest
+  | "cont" :: iname :: ident :: method :: rest => parseCont iname ident method rest
+  | "seal" :: kind :: iname :: ident :: rest => parseSeal kind iname ident rest
+  | "sopen" :: iname :: ident :: rest => parseSticky .sopen iname ident rest
+  | "suse" :: iname :: ident :: rest => parseSticky .suse iname ident rest
+  | "sclose" :: iname :: ident :: rest => parseSticky .sclose iname ident rest
+  | "sdel" :: iname :: ident :: rest => parseSticky .sdel iname ident rest
+  | _ => none
+
+/-- One driver line. -/
+def step (w : World) (ws : List String) : World × String :=
+  match parse ws with
+  | none => (w, "bad-op")
+  | some c => apply w c
+
+/-- A history is a list of commands; `run` is what the driver computes line by line. -/
+def run (w : World) (cs : List Cmd) : World := cs.foldl (fun w c => (apply w c).1) w
 
 end Vgi.Token
